@@ -1,5 +1,5 @@
 (* PV.C07.Proofs — lemmas about the C07 model of the statement refactorings. *)
-From Coq Require Import QArith List Bool PArith Arith Lia.
+From Coq Require Import QArith List Bool PArith Arith Lia Permutation.
 From PV Require Import Base.PyData Base.Expr Base.Interp Base.Stmts C07.Model.
 From PV Require C10.Model C10.Proofs.
 Import ListNotations.
@@ -1434,4 +1434,271 @@ Proof.
   apply negb_true_iff. apply andb_false_iff. destruct H as [H|H].
   - right. apply negb_false_iff. apply memp_In. exact H.
   - left. apply not_memp. exact H.
+Qed.
+
+
+(* ================= unjoin / split_joint keep the random variables ================= *)
+Lemma enum_from_ge {A} (l : list A) : forall k i x, In (i, x) (enum_from k l) -> k <= i.
+Proof.
+  induction l as [|a l IH]; intros k i x H; cbn [enum_from] in H; [destruct H|].
+  destruct H as [H|H]; [injection H as <- _; lia | apply IH in H; lia].
+Qed.
+
+Lemma enum_from_nth {A} (l : list A) d : forall k i x, In (i, x) (enum_from k l) -> nth (i - k) l d = x.
+Proof.
+  induction l as [|a l IH]; intros k i x H; cbn [enum_from] in H; [destruct H|].
+  destruct H as [H|H].
+  - injection H as <- <-. rewrite Nat.sub_diag. reflexivity.
+  - pose proof (enum_from_ge _ _ _ _ H) as Hge. apply IH in H.
+    replace (i - k) with (S (i - S k)) by lia. exact H.
+Qed.
+
+Lemma map_snd_enum_from {A} (l : list A) : forall k, map snd (enum_from k l) = l.
+Proof. induction l as [|a l IH]; intros k; cbn [enum_from map snd]; [reflexivity | rewrite IH; reflexivity]. Qed.
+
+(* the indices selected by a filter on the enumeration identify the selected entries *)
+Lemma memn_fst_filter {A} (q : nat * A -> bool) (l : list A) : forall k ix,
+  In ix (enum_from k l) -> memn (fst ix) (map fst (filter q (enum_from k l))) = q ix.
+Proof.
+  induction l as [|a l IH]; intros k ix H; cbn [enum_from] in H; [destruct H|].
+  cbn [enum_from filter].
+  assert (Htail : forall jy, In jy (enum_from (S k) l) -> fst jy <> k).
+  { intros [j y] Hj. apply enum_from_ge in Hj. cbn [fst]. lia. }
+  assert (Hnot : memn k (map fst (filter q (enum_from (S k) l))) = false).
+  { destruct (memn k (map fst (filter q (enum_from (S k) l)))) eqn:E; [|reflexivity].
+    apply memn_In in E. apply in_map_iff in E. destruct E as [jy [E1 E2]]. apply filter_In in E2.
+    exfalso. apply (Htail jy); tauto. }
+  destruct H as [<-|H].
+  - cbn [fst]. destruct (q (k, a)) eqn:Eq; cbn [map fst memn existsb].
+    + rewrite Nat.eqb_refl. reflexivity.
+    + exact Hnot.
+  - destruct (q (k, a)) eqn:Eq; cbn [map fst memn existsb].
+    + assert (E : Nat.eqb (fst ix) k = false) by (apply Nat.eqb_neq; apply Htail; exact H).
+      rewrite E. cbn [orb]. apply IH. exact H.
+    + apply IH. exact H.
+Qed.
+
+Lemma keep_idx_filter {A} (q : nat * A -> bool) (l : list A) :
+  keep_idx (map fst (filter q (enum_from 0 l))) l = map snd (filter q (enum_from 0 l)).
+Proof.
+  unfold keep_idx. f_equal. apply filter_ext_in. intros ix Hin. apply memn_fst_filter. exact Hin.
+Qed.
+
+Lemma perm_filter_split {A} (p : A -> bool) (l : list A) :
+  Permutation (filter p l ++ filter (fun x => negb (p x)) l) l.
+Proof.
+  induction l as [|a l IH]; [constructor|]. cbn [filter]. destruct (p a); cbn [negb app].
+  - constructor. exact IH.
+  - apply Permutation_sym. apply Permutation_cons_app. apply Permutation_sym. exact IH.
+Qed.
+
+(* names of the singles: the selected names in order *)
+Lemma singles_names (inds : list id) (f : nat -> list id) (ns : list id) : forall k,
+  flat_map rdist_names
+    (flat_map (fun ix : nat * id => if memp (snd ix) inds then [DNormal (snd ix) (f (fst ix))] else []) (enum_from k ns))
+  = filter (fun n => memp n inds) ns.
+Proof.
+  induction ns as [|a ns IH]; intros k; cbn [enum_from flat_map filter snd fst]; [reflexivity|].
+  destruct (memp a inds); cbn [app flat_map rdist_names]; rewrite IH; reflexivity.
+Qed.
+
+Lemma filter_snd_enum (p : id -> bool) (ns : list id) : forall k,
+  map snd (filter (fun ix : nat * id => p (snd ix)) (enum_from k ns)) = filter p ns.
+Proof.
+  induction ns as [|a ns IH]; intros k; cbn [enum_from filter snd map]; [reflexivity|].
+  destruct (p a); cbn [map snd]; rewrite IH; reflexivity.
+Qed.
+
+Lemma unjoin_dist_names inds d :
+  Permutation (flat_map rdist_names (unjoin_dist inds d)) (rdist_names d).
+Proof.
+  destruct d as [n v|ns m]; cbn [unjoin_dist].
+  - cbn. apply Permutation_refl.
+  - destruct (existsb (fun n => memp n inds) ns); [|cbn [flat_map rdist_names]; rewrite app_nil_r; apply Permutation_refl].
+    cbv zeta. rewrite flat_map_app, singles_names. cbn [rdist_names].
+    set (E := filter (fun ix : nat * id => negb (memp (snd ix) inds)) (enum_from 0 ns)).
+    assert (Hkept : flat_map rdist_names
+              (match map fst E with
+               | [] => []
+               | [i] => [DNormal (nth i ns 1%positive) (diag_syms m i)]
+               | _ => [DJoint (keep_idx (map fst E) ns) (map (keep_idx (map fst E)) (keep_idx (map fst E) m))]
+               end) = filter (fun n => negb (memp n inds)) ns).
+    { pose proof (filter_snd_enum (fun n => negb (memp n inds)) ns 0) as H0. cbn beta in H0. fold E in H0.
+      transitivity (map snd E); [|exact H0]. clear H0.
+      destruct E as [|[i x] [|jy E']] eqn:EE.
+      - reflexivity.
+      - cbn [map fst snd flat_map rdist_names app]. f_equal.
+        assert (Hin : In (i, x) (enum_from 0 ns)).
+        { assert (H : In (i, x) E) by (rewrite EE; left; reflexivity). unfold E in H. apply filter_In in H. tauto. }
+        apply (enum_from_nth ns 1%positive) in Hin. rewrite Nat.sub_0_r in Hin. exact Hin.
+      - rewrite <- EE. cbn [map fst] in *.
+        replace (match map fst E with [] => [] | [i0] => [DNormal (nth i0 ns 1%positive) (diag_syms m i0)]
+                 | _ => [DJoint (keep_idx (map fst E) ns) (map (keep_idx (map fst E)) (keep_idx (map fst E) m))] end)
+          with [DJoint (keep_idx (map fst E) ns) (map (keep_idx (map fst E)) (keep_idx (map fst E) m))]
+          by (rewrite EE; reflexivity).
+        cbn [flat_map rdist_names]. rewrite app_nil_r. unfold E. apply keep_idx_filter. }
+    match goal with
+    | |- Permutation (_ ++ ?x) _ =>
+        assert (Heq : x = filter (fun n => negb (memp n inds)) ns) by exact Hkept; rewrite Heq
+    end.
+    apply (perm_filter_split (fun n => memp n inds) ns).
+Qed.
+
+Lemma unjoin_names_perm inds : forall ds,
+  Permutation (flat_map rdist_names (unjoin inds ds)) (flat_map rdist_names ds).
+Proof.
+  induction ds as [|d ds IH]; [constructor|]. unfold unjoin in *. cbn [flat_map]. rewrite flat_map_app.
+  apply Permutation_app; [apply unjoin_dist_names | exact IH].
+Qed.
+
+(* ---- every random variable keeps its variance ---- *)
+Fixpoint incr (o : nat) (keep : list nat) : Prop :=
+  match keep with [] => True | k :: ks => o <= k /\ incr (S k) ks end.
+
+Lemma incr_le o o' keep : o' <= o -> incr o keep -> incr o' keep.
+Proof. destruct keep as [|k ks]; cbn [incr]; [tauto|]. intros H [H1 H2]. split; [lia | exact H2]. Qed.
+
+Lemma incr_filter_enum {A} (q : nat * A -> bool) (l : list A) : forall o,
+  incr o (map fst (filter q (enum_from o l))).
+Proof.
+  induction l as [|a l IH]; intros o; cbn [enum_from filter]; [exact I|].
+  destruct (q (o, a)); cbn [map fst incr].
+  - split; [lia | apply IH].
+  - apply (incr_le (S o)); [lia | apply IH].
+Qed.
+
+Lemma incr_not_mem o keep i : incr o keep -> i < o -> memn i keep = false.
+Proof.
+  revert o. induction keep as [|k ks IH]; intros o H Hi; [reflexivity|]. cbn [incr] in H. destruct H as [H1 H2].
+  cbn [memn existsb]. assert (E : Nat.eqb i k = false) by (apply Nat.eqb_neq; lia). rewrite E. cbn [orb].
+  apply (IH (S k)); [exact H2 | lia].
+Qed.
+
+Lemma nth_incr_ge keep : forall o j D, incr o keep -> o <= D -> o <= nth j keep D.
+Proof.
+  induction keep as [|k ks IH]; intros o j D H HD; [destruct j; exact HD|].
+  cbn [incr] in H. destruct H as [H1 H2]. destruct j as [|j]; cbn [nth]; [exact H1|].
+  apply IH; [|exact HD]. apply (incr_le (S k)); [lia | exact H2].
+Qed.
+
+Lemma filter_memn_nil {A} (L : list (nat * A)) : filter (fun ix : nat * A => memn (fst ix) []) L = [].
+Proof. induction L as [|x t IH]; [reflexivity | exact IH]. Qed.
+
+(* the j-th selected element is the element at the j-th selected index (out of range on both sides alike) *)
+Lemma nth_keep_from {A} (d : A) : forall (l : list A) o keep j,
+  incr o keep ->
+  nth j (map snd (filter (fun ix : nat * A => memn (fst ix) keep) (enum_from o l))) d
+  = nth (nth j keep (o + length l) - o) l d.
+Proof.
+  induction l as [|a l IH]; intros o keep j Hk.
+  - cbn [enum_from filter map nth length]. destruct j; destruct (nth _ keep _ - o); reflexivity.
+  - destruct keep as [|k ks].
+    + rewrite filter_memn_nil. cbn [map].
+      replace (nth j [] (o + length (a :: l)) - o) with (length (a :: l)) by (destruct j; cbn [nth]; lia).
+      rewrite (nth_overflow (a :: l)) by lia. destruct j; reflexivity.
+    + cbn [enum_from filter length]. cbn [incr] in Hk. destruct Hk as [Hk1 Hk2]. cbn [fst].
+      destruct (Nat.eq_dec k o) as [->|Hne].
+      * assert (Hh : memn o (o :: ks) = true) by (cbn [memn existsb]; rewrite Nat.eqb_refl; reflexivity).
+        rewrite Hh. cbn [map snd].
+        assert (Ef : filter (fun ix : nat * A => memn (fst ix) (o :: ks)) (enum_from (S o) l)
+                     = filter (fun ix : nat * A => memn (fst ix) ks) (enum_from (S o) l)).
+        { apply filter_ext_in. intros [i x] Hin. apply enum_from_ge in Hin. cbn [fst memn existsb].
+          assert (E : Nat.eqb i o = false) by (apply Nat.eqb_neq; lia). rewrite E. reflexivity. }
+        rewrite Ef. destruct j as [|j]; cbn [nth].
+        -- rewrite Nat.sub_diag. reflexivity.
+        -- rewrite (IH (S o) ks j Hk2).
+           assert (G : S o <= nth j ks (o + S (length l))) by (apply nth_incr_ge; [exact Hk2 | lia]).
+           replace (S o + length l) with (o + S (length l)) by lia.
+           replace (nth j ks (o + S (length l)) - o) with (S (nth j ks (o + S (length l)) - S o)) by lia. reflexivity.
+      * assert (Hm : memn o (k :: ks) = false) by (apply (incr_not_mem k); [cbn [incr]; split; [lia|exact Hk2] | lia]).
+        rewrite Hm. rewrite (IH (S o) (k :: ks) j) by (cbn [incr]; split; [lia | exact Hk2]).
+        assert (G : S o <= nth j (k :: ks) (o + S (length l))).
+        { apply nth_incr_ge; [cbn [incr]; split; [lia | exact Hk2] | lia]. }
+        replace (S o + length l) with (o + S (length l)) by lia.
+        replace (nth j (k :: ks) (o + S (length l)) - o) with (S (nth j (k :: ks) (o + S (length l)) - S o)) by lia.
+        reflexivity.
+Qed.
+
+Lemma nth_keep_idx {A} (d : A) (l : list A) keep j :
+  incr 0 keep -> nth j (keep_idx keep l) d = nth (nth j keep (length l)) l d.
+Proof. intros H. unfold keep_idx. rewrite (nth_keep_from d l 0 keep j H). rewrite Nat.sub_0_r. reflexivity. Qed.
+
+Lemma keep_idx_nil {A} keep : keep_idx keep (@nil A) = [].
+Proof. reflexivity. Qed.
+
+(* diagonal of the sub-matrix = diagonal of the matrix at the selected index *)
+Lemma diag_sub (m : list (list (list id))) keep j :
+  incr 0 keep -> j < length keep ->
+  diag_syms (map (keep_idx keep) (keep_idx keep m)) j = diag_syms m (nth j keep 0).
+Proof.
+  intros Hk Hj. unfold diag_syms.
+  rewrite <- (keep_idx_nil keep) at 1. rewrite map_nth.
+  rewrite (nth_keep_idx [] m keep j Hk), (nth_keep_idx [] _ keep j Hk).
+  rewrite (nth_indep keep (length m) 0 Hj), (nth_indep keep (length _) 0 Hj). reflexivity.
+Qed.
+
+Lemma map_enum_pointwise {B} (F : nat -> B) (G : nat -> B) : forall (E : list (nat * id)) j0,
+  (forall j, j < length E -> F (j0 + j) = G (fst (nth j E (0, 1%positive)))) ->
+  map (fun jx : nat * id => (snd jx, F (fst jx))) (enum_from j0 (map snd E))
+  = map (fun ix : nat * id => (snd ix, G (fst ix))) E.
+Proof.
+  induction E as [|[k x] E IH]; intros j0 H; [reflexivity|].
+  cbn [map snd enum_from fst]. f_equal.
+  - f_equal. specialize (H 0). cbn [length nth fst] in H. rewrite Nat.add_0_r in H. apply H. lia.
+  - apply IH. intros j Hj. specialize (H (S j)). cbn [length nth] in H. rewrite <- Nat.add_succ_comm in H. apply H. lia.
+Qed.
+
+Lemma singles_vars (inds : list id) (f : nat -> list id) (ns : list id) : forall k,
+  flat_map rv_vars
+    (flat_map (fun ix : nat * id => if memp (snd ix) inds then [DNormal (snd ix) (f (fst ix))] else []) (enum_from k ns))
+  = map (fun ix => (snd ix, f (fst ix))) (filter (fun ix : nat * id => memp (snd ix) inds) (enum_from k ns)).
+Proof.
+  induction ns as [|a ns IH]; intros k; cbn [enum_from flat_map filter snd fst]; [reflexivity|].
+  destruct (memp a inds); cbn [app flat_map rv_vars map snd fst]; rewrite IH; reflexivity.
+Qed.
+
+Lemma unjoin_dist_vars inds d :
+  Permutation (flat_map rv_vars (unjoin_dist inds d)) (rv_vars d).
+Proof.
+  destruct d as [n v|ns m]; cbn [unjoin_dist].
+  - cbn. apply Permutation_refl.
+  - destruct (existsb (fun n => memp n inds) ns); [|cbn [flat_map]; rewrite app_nil_r; apply Permutation_refl].
+    cbv zeta. rewrite flat_map_app, singles_vars. cbn [rv_vars].
+    set (g := fun ix : nat * id => (snd ix, diag_syms m (fst ix))).
+    set (E := filter (fun ix : nat * id => negb (memp (snd ix) inds)) (enum_from 0 ns)).
+    assert (Hinc : incr 0 (map fst E)) by (apply incr_filter_enum).
+    assert (Hkept : flat_map rv_vars
+              (match map fst E with
+               | [] => []
+               | [i] => [DNormal (nth i ns 1%positive) (diag_syms m i)]
+               | _ => [DJoint (keep_idx (map fst E) ns) (map (keep_idx (map fst E)) (keep_idx (map fst E) m))]
+               end) = map g E).
+    { destruct E as [|[i x] [|jy E']] eqn:EE.
+      - reflexivity.
+      - cbn [map fst snd flat_map rv_vars app]. unfold g. cbn [fst snd]. f_equal. f_equal.
+        assert (Hin : In (i, x) (enum_from 0 ns)).
+        { assert (H : In (i, x) E) by (rewrite EE; left; reflexivity). unfold E in H. apply filter_In in H. tauto. }
+        apply (enum_from_nth ns 1%positive) in Hin. rewrite Nat.sub_0_r in Hin. exact Hin.
+      - rewrite <- EE in *. 
+        replace (match map fst E with [] => [] | [i0] => [DNormal (nth i0 ns 1%positive) (diag_syms m i0)]
+                 | _ => [DJoint (keep_idx (map fst E) ns) (map (keep_idx (map fst E)) (keep_idx (map fst E) m))] end)
+          with [DJoint (keep_idx (map fst E) ns) (map (keep_idx (map fst E)) (keep_idx (map fst E) m))]
+          by (rewrite EE; reflexivity).
+        cbn [flat_map rv_vars]. rewrite app_nil_r.
+        assert (Hk : keep_idx (map fst E) ns = map snd E) by (unfold E; apply keep_idx_filter).
+        rewrite Hk. unfold g. apply map_enum_pointwise. intros j Hj. cbn [Nat.add].
+        rewrite diag_sub; [|exact Hinc|rewrite map_length; exact Hj].
+        f_equal. change 0 with (fst (0, 1%positive)) at 1. apply map_nth. }
+    match goal with
+    | |- Permutation (_ ++ ?x) _ => assert (Heq : x = map g E) by exact Hkept; rewrite Heq
+    end.
+    unfold E. rewrite <- map_app. apply Permutation_map.
+    apply (perm_filter_split (fun ix : nat * id => memp (snd ix) inds) (enum_from 0 ns)).
+Qed.
+
+Lemma unjoin_vars_perm inds : forall ds,
+  Permutation (flat_map rv_vars (unjoin inds ds)) (flat_map rv_vars ds).
+Proof.
+  induction ds as [|d ds IH]; [constructor|]. unfold unjoin in *. cbn [flat_map]. rewrite flat_map_app.
+  apply Permutation_app; [apply unjoin_dist_vars | exact IH].
 Qed.
